@@ -18,14 +18,17 @@ RULE = (
     "rec = fcp.reflection() and R = get_reflection_schema(), floats bit-exact; (b) rec without its 'meta' entries == the "
     "record built independently from the description (every struct, field name/id/outermost-first type chain/unit/"
     "range, enumerator, binding with extension fields and signal blocks as name/str(value) pairs, service and method). "
-    "Non-trivial = schema has a range, a unit, a signal block, a service or a type of depth >= 2; distinct by sha1(text)."
+    "In 2 of 3 cases the same FcpV2 object first goes through a generated history of 1-3 tool operations (DBC/C++ generation, "
+    "verification with either plug-in's checks, to_dict, packed layout of every binding, describe, an earlier reflection) and "
+    "the record must still equal the description. Non-trivial = schema has a range, a unit, a signal block, a service or a "
+    "type of depth >= 2; distinct by sha1(text)."
 )
 ASSUMPTIONS = [
     "ids and enumerator values are inside the reflection schema's carriers (u32 ids, i32 enumerators)",
     "'meta' (source positions) is only required to survive the round-trip, not compared with the description",
     "extension keys are unique within a binding / signal block",
 ]
-FLOORS = {"range": 0.05, "unit": 0.05, "signal_block": 0.05, "service": 0.05, "depth_ge2": 0.05}
+FLOORS = {"after_history": 0.3, "range": 0.05, "unit": 0.05, "signal_block": 0.05, "service": 0.05, "depth_ge2": 0.05}
 
 
 def cfg(tier: str) -> S.FullCfg:
@@ -33,6 +36,7 @@ def cfg(tier: str) -> S.FullCfg:
         data=S.SchemaCfg(types=S.TypeCfg(depth=3 if tier == "quick" else 5), units=True, ranges=True,
                          enum_max_bits=31, max_structs=4, max_fields=5, max_fid=2**32 - 1),
         free_positions=False,
+        protocols=("can", "can", "uart", "lin", "other"),
     )
 
 
@@ -51,9 +55,64 @@ def refl_schema() -> Any:
     return _R
 
 
-def check(s: M.Schema, fcp: Any) -> Optional[str]:
+HISTORY_OPS = ["dbc", "verify", "verify_dbc", "verify_can_c", "to_dict", "layout", "describe", "reflection", "cpp"]
+
+
+def run_history(fcp: Any, ops: Any) -> None:
+    """Things a tool does with a parsed schema before asking for its reflection; none of them may change it."""
+    for op in ops or []:
+        try:
+            if op == "dbc":
+                import fcp_dbc
+
+                fcp_dbc.Generator().generate(fcp, {"output": "out"})
+            elif op.startswith("verify"):
+                from fcp.verifier import make_general_verifier
+
+                v = make_general_verifier()
+                if op == "verify_dbc":
+                    import fcp_dbc
+
+                    fcp_dbc.Generator().register_checks(v)
+                elif op == "verify_can_c":
+                    import fcp_can_c
+
+                    fcp_can_c.Generator().register_checks(v)
+                v.verify(fcp)
+            elif op == "to_dict":
+                fcp.to_dict()
+            elif op == "layout":
+                from fcp.encoding import PackedEncoderContext, make_encoder
+
+                enc = make_encoder("packed", fcp, PackedEncoderContext().with_unroll_arrays(True))
+                for im in fcp.impls:
+                    try:
+                        enc.generate(im)
+                    except Exception:
+                        pass
+            elif op == "describe":
+                from fcp.describe import describe
+                from fcp.specs.type import StructType
+
+                for st_ in fcp.structs:
+                    try:
+                        describe(fcp, StructType(st_.name))
+                    except Exception:
+                        pass
+            elif op == "reflection":
+                fcp.reflection()
+            elif op == "cpp":
+                import fcp_cpp
+
+                fcp_cpp.Generator().generate(fcp, {"output": "out"})
+        except Exception:
+            pass  # a failing tool is not this property's business; the schema object must stay intact
+
+
+def check(s: M.Schema, fcp: Any, ops: Any = None) -> Optional[str]:
     from fcp import serde
 
+    run_history(fcp, ops)
     try:
         rec = fcp.reflection()
     except Exception as e:
@@ -92,7 +151,8 @@ def run_shard(ctx: Ctx) -> None:
     rec = ctx.rec
     refl_schema()
 
-    def body(s: M.Schema) -> None:
+    def body(c: Any) -> None:
+        s, ops = c
         rec.frontend_attempts += 1
         fcp, text, err = frontend.parse_schema(s)
         if fcp is None:
@@ -104,11 +164,17 @@ def run_shard(ctx: Ctx) -> None:
         if cl:
             rec.nt(text)
             rec.sample({"schema": text, "classes": cl})
-        msg = check(s, fcp)
+        if ops:
+            rec.cls("after_history")
+        msg = check(s, fcp, ops)
         if msg:
-            raise Violation(msg, {"schema_text": text, "schema_pickle": pickle_b64(s)})
+            raise Violation(msg + (f" (after {ops} on the same schema object)" if ops else ""),
+                            {"schema_text": text, "schema_pickle": pickle_b64(s), "ops": ops})
 
-    hyp_run(ctx, S.full_schema(cfg(ctx.tier)), body, ctx.n(1200, 20000))
+    from hypothesis import strategies as st
+
+    strat = st.tuples(S.full_schema(cfg(ctx.tier)), st.lists(st.sampled_from(HISTORY_OPS), max_size=3))
+    hyp_run(ctx, strat, body, ctx.n(1200, 20000))
 
 
 def replay(case: Dict[str, Any]) -> Optional[str]:
@@ -116,4 +182,4 @@ def replay(case: Dict[str, Any]) -> Optional[str]:
     fcp, text, err = frontend.parse_schema(s)
     if fcp is None:
         raise HarnessError(f"front end rejects the replay schema: {err}")
-    return check(s, fcp)
+    return check(s, fcp, case.get("ops"))
